@@ -23,6 +23,6 @@ def check(ctx):
               mc_cfgs=[("listing", "LcListing.tla", "LcListing_quick.cfg")] if q else
                       [("listing", "LcListing.tla", "LcListing_thorough.cfg"), ("2ecu4", "LcDetector.tla", "Lc_2ecu4.cfg")],
               driver_args=["--regressions", "--random", "500" if q else "10000", "--max-len", "40" if q else "120",
-                           "--big-tables", "12" if q else "150", "--file-max", "600" if q else "6000"],
+                           "--big-tables", "12" if q else "150", "--file-max", "600" if q else "6000", "--huge", "1" if q else "3"],
               scripted=2500 if q else 40000,
               what="final table vs delivered messages; listing obligations")
